@@ -3,9 +3,12 @@ package drv
 import (
 	"bytes"
 	"encoding/json"
+	"fmt"
 	"io"
+	"net"
 	"os"
 	"path/filepath"
+	"sync"
 	"time"
 
 	"github.com/q191201771/lal/pkg/base"
@@ -34,6 +37,77 @@ type flvScenario struct {
 	// Queued: the session writes through lal's asynchronous write queue (the production default, 1024 elements) and the
 	// peer takes nothing until every element is queued
 	Queued bool `json:"queued"`
+	// Via (mode file): the recording is read back through lal's own HTTP-FLV client (httpflv.PullSession) from a loopback
+	// HTTP server - "http": a plain 200 response without Content-Length; "redir": a 302 with a small body and its
+	// Content-Length first, then that response.  What the client hands to its callback (tag.Raw) behind the header is
+	// the stream that is judged.
+	Via string `json:"via"`
+}
+
+// flvPullBack serves file to a PullSession and returns the 13 header bytes followed by the raw tags the session delivered
+func flvPullBack(file []byte, via string) []byte {
+	serve := func(ln net.Listener, resp func() []byte) {
+		c, err := ln.Accept()
+		if err != nil {
+			return
+		}
+		defer c.Close()
+		_ = c.SetDeadline(time.Now().Add(5 * time.Second))
+		var req []byte
+		buf := make([]byte, 1024)
+		for !bytes.Contains(req, []byte("\r\n\r\n")) {
+			n, err := c.Read(buf)
+			if err != nil {
+				return
+			}
+			req = append(req, buf[:n]...)
+		}
+		_, _ = c.Write(resp())
+	}
+	lnA, err := net.Listen("tcp", "127.0.0.1:0")
+	if err != nil {
+		return nil
+	}
+	defer lnA.Close()
+	go serve(lnA, func() []byte {
+		return append([]byte("HTTP/1.1 200 OK\r\nContent-Type: video/x-flv\r\nConnection: close\r\n\r\n"), file...)
+	})
+	url := "http://" + lnA.Addr().String() + "/live/s.flv"
+	if via == "redir" {
+		lnB, err := net.Listen("tcp", "127.0.0.1:0")
+		if err != nil {
+			return nil
+		}
+		defer lnB.Close()
+		target := url
+		go serve(lnB, func() []byte {
+			body := bytes.Repeat([]byte("<"), 154)
+			return append([]byte(fmt.Sprintf("HTTP/1.1 302 Found\r\nLocation: %s\r\nContent-Type: text/html\r\nContent-Length: %d\r\n\r\n", target, len(body))), body...)
+		})
+		url = "http://" + lnB.Addr().String() + "/live/s.flv"
+	}
+	var mu sync.Mutex
+	var got []byte
+	s := httpflv.NewPullSession(func(o *httpflv.PullSessionOption) { o.PullTimeoutMs = 3000; o.ReadTimeoutMs = 3000 }).
+		WithOnReadFlvTag(func(tag httpflv.Tag) {
+			mu.Lock()
+			got = append(got, tag.Raw...)
+			mu.Unlock()
+		})
+	if err := s.Start(url); err != nil {
+		return nil
+	}
+	select {
+	case <-s.WaitChan():
+	case <-time.After(5 * time.Second):
+	}
+	_ = s.Dispose()
+	mu.Lock()
+	defer mu.Unlock()
+	if len(file) < 13 {
+		return nil
+	}
+	return append(append([]byte{}, file[:13]...), got...)
 }
 
 func init() { Registry["flv"] = flvDriver }
@@ -210,6 +284,9 @@ func flvSession(sc *flvScenario, tw *TraceWriter, tmp string) {
 		ffw.Dispose()
 		stream, _ = os.ReadFile(fname)
 		os.Remove(fname)
+		if sc.Via != "" {
+			stream = flvPullBack(stream, sc.Via)
+		}
 	} else if opened {
 		if release != nil {
 			// everything is queued: let the peer read, and wait until the queue has been written out
